@@ -97,6 +97,8 @@ func runC17(cx *Ctx, r *Report) {
 		ok := len(set) == 1 && len(cr) == 1 && set[0].ev.Args[0].LooseString() == "oracle/types.GetFeedStateKey(msg.FeedName, 1)" && len(cr[0].ev.Args) >= 12 && cr[0].ev.Args[10].LooseString() == "1" && cr[0].ev.Args[12].LooseString() == `"oracle"`
 		r.check(ok, "state-mirror", "CreateFeed", "", "a new feed is indexed PAUSED and its context is created PAUSED for module oracle", "a new feed's index state and its context's initial state differ")
 	}
+	// ---------------- every response counts once
+	cx.c17AllResponsesCounted(r, per["RegisterResponseCallback"])
 	// ---------------- one value per response
 	{
 		evs := per["RegisterResponseCallback"]
@@ -296,5 +298,114 @@ func (cx *Ctx) oracleTrimRule(r *Report, per map[string][]hev, rule string) {
 			}
 			r.check(ok, rule, name, d.ev.Pos(cx), "the number of oldest values removed is "+want, name+": removes "+trunc(a, 160)+" oldest values; expected "+want+": the feed would keep fewer (or more) than the newest latest-history values")
 		}
+	}
+}
+
+// c17AllResponsesCounted: the list handed to the aggregate function gets one element per
+// response output. The loop over the outputs appends on every iteration, or skips an
+// output only for a reason found in that output itself; an append that depends on what
+// EARLIER iterations did (a "seen" / memo map filled by the same loop) drops or merges
+// responses - byte-identical answers of two providers then count once in the average.
+func (cx *Ctx) c17AllResponsesCounted(r *Report, evs []hev) {
+	if len(evs) == 0 {
+		r.toolErr("no event on the oracle response callback chain")
+		return
+	}
+	root := rootFrame(evs[0].ev.Fr).Fn
+	var fns []*ssa.Function
+	for _, g := range cx.Reachable([]*ssa.Function{root}, nil).Order {
+		if g.Blocks != nil && isIrismodFunc(g) && moduleOf(funcPkgPath(g)) == "oracle" {
+			fns = append(fns, g)
+		}
+	}
+	n := 0
+	for _, f := range fns {
+		// loops that walk a []string parameter
+		headers := map[*ssa.BasicBlock]bool{}
+		for _, b := range f.Blocks {
+			for _, ins := range b.Instrs {
+				ia, ok := ins.(*ssa.IndexAddr)
+				if !ok {
+					continue
+				}
+				base := ia.X
+				if u, ok := base.(*ssa.UnOp); ok {
+					if a, ok := u.X.(*ssa.Alloc); ok && a.Referrers() != nil {
+						for _, rf := range *a.Referrers() {
+							if st, ok := rf.(*ssa.Store); ok && st.Addr == a {
+								base = st.Val
+							}
+						}
+					}
+				}
+				p, ok := base.(*ssa.Parameter)
+				if !ok {
+					continue
+				}
+				sl, ok := p.Type().Underlying().(*types.Slice)
+				if !ok {
+					continue
+				}
+				if bt, ok := sl.Elem().Underlying().(*types.Basic); !ok || bt.Kind() != types.String {
+					continue
+				}
+				if h := loopHeaderOf(b); h != nil {
+					headers[h] = true
+				}
+			}
+		}
+		for h := range headers {
+			inL := func(b *ssa.BasicBlock) bool {
+				for x := loopHeaderOf(b); x != nil; {
+					if x == h {
+						return true
+					}
+					if x.Idom() == nil {
+						break
+					}
+					x = loopHeaderOf(x.Idom())
+				}
+				return b == h
+			}
+			var apps []ssa.Instruction
+			updated := map[ssa.Value]bool{}
+			var lookups []*ssa.Lookup
+			for _, b := range f.Blocks {
+				if !inL(b) {
+					continue
+				}
+				for _, ins := range b.Instrs {
+					switch x := ins.(type) {
+					case *ssa.Call:
+						if bi, ok := x.Common().Value.(*ssa.Builtin); ok && bi.Name() == "append" {
+							apps = append(apps, x)
+						}
+					case *ssa.MapUpdate:
+						updated[x.Map] = true
+					case *ssa.Lookup:
+						lookups = append(lookups, x)
+					}
+				}
+			}
+			if len(apps) == 0 {
+				continue
+			}
+			n++
+			pos := cx.P.Pos(apps[0].Pos())
+			if perIterationMust(apps) {
+				r.ok("all-responses-counted", shortFn(f), pos, "the loop over the response outputs appends one element to the aggregate's input on every iteration")
+				continue
+			}
+			memo := ""
+			for _, l := range lookups {
+				if updated[l.X] {
+					memo = cx.P.Pos(l.Pos())
+				}
+			}
+			r.check(memo == "", "all-responses-counted", shortFn(f), pos, "an output is skipped only for a reason found in that output itself (no state carried between iterations decides it)", "in the loop over the response outputs the append to the aggregate's input is skipped depending on a map the same loop fills (lookup at "+memo+"): outputs that repeat an earlier one are dropped, so the aggregate (the average in particular) is not taken over every valid response")
+		}
+	}
+	if n == 0 {
+		r.toolErr("no loop over the response outputs that fills the aggregate's input was found on the callback chain (1 confirmed)")
 	}
 }
